@@ -473,3 +473,105 @@ Proof.
   destruct (N.eqb_spec (p_bits r) 0) as [Z|NZ]; [lia|].
   eexists. exists ttl. split; [exact Hst|]. cbn. lia.
 Qed.
+
+(* ------------------------------------------------------------------ the byte path of the cache *)
+(* a query without a subnet option: nothing is forwarded and no request scope is derived *)
+Lemma plain_query_unscoped c qy :
+  match q_opts qy with Some l => has_ecs l | None => false end = false -> req_scope_of c qy = None.
+Proof.
+  intros H. unfold req_scope_of, forwarded.
+  assert (match q_opts qy with
+          | Some l => new_opts (policy_of (c_b c)) (addr_from_slice_unmap (q_remote qy)) l
+          | None => []
+          end = []) as HF.
+  { destruct (q_opts qy) as [l|]; [|reflexivity]. apply new_opts_no_client_ecs. exact H. }
+  rewrite HF. apply request_scope_nil.
+Qed.
+
+(* what is answered from bytes: only to a query that carried no subnet option, only an entry filed
+   under the SHARED key for the same question and CD bit, never one that is due for refresh *)
+Lemma serve_wire_sound c st qy aged ob : serve_wire c st qy aged = Some ob ->
+  match q_opts qy with Some l => has_ecs l | None => false end = false /\
+  ob_src ob = 2 /\ ob_up ob = None /\ ob_stored ob = None /\ ob_refresh ob = None /\
+  exists e, In e st /\ ce_q e = q_name qy /\ ce_cd e = q_cd qy /\ ce_scope e = None /\ ce_ans e = ob_ans ob.
+Proof.
+  unfold serve_wire. destruct (match q_opts qy with Some l => has_ecs l | None => false end); [discriminate|].
+  destruct (st_lookup st (q_name qy) (q_cd qy) None) as [e|] eqn:EL; [|discriminate].
+  destruct (c_prefetch c && aged && prefetch_eligible e); [discriminate|].
+  intros H. inversion H; subst ob; cbn. apply st_lookup_sound in EL. destruct EL as [H1 [H2 [H3 H4]]].
+  repeat split; try reflexivity. exists e. auto.
+Qed.
+
+(* the byte path is a refinement of the decoded body: whenever it may answer, the body of the same
+   call would have given the same answer and left the same store *)
+Lemma serve_wire_refines c st qy up aged rf ob :
+  serve_wire c st qy aged = Some ob -> serve c st qy up aged rf = (st, ob).
+Proof.
+  unfold serve_wire. destruct (match q_opts qy with Some l => has_ecs l | None => false end) eqn:ER; [discriminate|].
+  pose proof (plain_query_unscoped c qy ER) as HN. unfold req_scope_of in HN.
+  unfold serve. rewrite HN. cbn [scoped_lookup].
+  destruct (st_lookup st (q_name qy) (q_cd qy) None) as [e|]; [|discriminate].
+  destruct (c_prefetch c && aged && prefetch_eligible e); [discriminate|].
+  intros H. inversion H. reflexivity.
+Qed.
+
+Lemma serve_w_is_serve c st wire fb qy up aged rf : serve_w c st wire fb qy up aged rf = serve c st qy up aged rf.
+Proof.
+  unfold serve_w. destruct (wire && fb); [|reflexivity].
+  destruct (serve_wire c st qy aged) as [ob|] eqn:E; [|reflexivity].
+  symmetry. apply serve_wire_refines. exact E.
+Qed.
+
+Lemma run_w_is_run c ops : forall st, run_w c st ops = run c st (map wo_op ops).
+Proof.
+  induction ops as [|o r IH]; intros st; [reflexivity|]. cbn [run_w run map].
+  rewrite serve_w_is_serve.
+  destruct (serve c st (co_q (wo_op o)) (co_up (wo_op o)) (co_aged (wo_op o)) (co_rf (wo_op o))) as [st' ob].
+  rewrite IH. reflexivity.
+Qed.
+
+(* the wire twin of scoped_only_inside_scope: along ANY history, whatever mix of wire-born and
+   message-born queries and whichever of them the byte path answers, an answer that has an audience
+   (a scoped entry) is never answered from bytes: what comes from bytes is for everyone *)
+Lemma bytes_serve_only_everyone c st qy aged ob :
+  inv (policy_of (c_b c)) (c_ecs_max c) st -> serve_wire c st qy aged = Some ob ->
+  exists e, In e st /\ ce_ans e = ob_ans ob /\ ce_q e = q_name qy /\ ce_cd e = q_cd qy /\
+            effective (policy_of (c_b c)) e = None.
+Proof.
+  intros HI H. apply serve_wire_sound in H. destruct H as [_ [_ [_ [_ [_ [e [Hin [Hq [Hcd [Hsc Ha]]]]]]]]]].
+  exists e. repeat split; auto. destruct (HI e Hin) as [HE _]. rewrite <- HE. exact Hsc.
+Qed.
+
+Lemma run_w_inv c ops : inv (policy_of (c_b c)) (c_ecs_max c) (fst (run_w c [] ops)).
+Proof. rewrite run_w_is_run. apply run_inv. apply inv_nil. Qed.
+
+Lemma run_w_ok c ops : run_ok c [] (map wo_op ops).
+Proof. apply run_sound. apply inv_nil. Qed.
+
+(* a subnet-bearing query is never answered from bytes, policy or not *)
+Lemma subnet_query_never_from_bytes c st qy aged l :
+  q_opts qy = Some l -> has_ecs l = true -> serve_wire c st qy aged = None.
+Proof. intros H1 H2. unfold serve_wire. rewrite H1, H2. reflexivity. Qed.
+
+(* a history where it matters: A (203.0.113.0/24) fetches answer 1, scoped /24; a wire-born client
+   WITHOUT a subnet option asks the same name: not from bytes (no shared entry), a miss, answer 3 shared;
+   asked again wire-born it IS answered from bytes (answer 3); A again, wire-born, subnet-bearing: the
+   byte path declines and the decoded body finds A's scoped entry *)
+Definition wire_ops : list wcop :=
+  [ mk_wcop (mk_cop (mk_query (mk_ipb 4 3325256714) (Some [OEcs ecs_a]) false 0)
+                    (mk_uresp 1 60000000000 (Some [OEcs (mk_ecs 1 24 24 (mk_ipb 4 3405803776))])) false (mk_uresp 2 60000000000 None)) true false;
+    mk_wcop (mk_cop (mk_query (mk_ipb 4 3325256715) (Some []) false 0) (mk_uresp 3 60000000000 None) false (mk_uresp 4 60000000000 None)) true false;
+    mk_wcop (mk_cop (mk_query (mk_ipb 4 3325256716) (Some []) false 0) (mk_uresp 5 60000000000 None) false (mk_uresp 6 60000000000 None)) true true;
+    mk_wcop (mk_cop (mk_query (mk_ipb 4 3325256717) (Some [OEcs ecs_a]) false 0) (mk_uresp 7 60000000000 None) false (mk_uresp 8 60000000000 None)) true true ].
+
+Lemma wire_history_example :
+  snd (run_w overlong_cfg [] wire_ops) =
+  [ mk_obs 0 1 (Some (Some ecs_a)) (Some (Some (mk_pfx true 3405803776 24), 60000000000%Z)) None;
+    mk_obs 0 3 (Some None) (Some (None, 60000000000%Z)) None;
+    mk_obs 2 3 None None None;
+    mk_obs 1 1 None None None ] /\
+  map (fun o => match o with Some _ => true | None => false end)
+      [ serve_wire overlong_cfg (fst (run_w overlong_cfg [] (firstn 2 wire_ops))) (co_q (wo_op (nth 2 wire_ops (mk_wcop (mk_cop (mk_query (mk_ipb 0 0) None false 0) (mk_uresp 0 0 None) false (mk_uresp 0 0 None)) false false)))) false;
+        serve_wire overlong_cfg (fst (run_w overlong_cfg [] (firstn 3 wire_ops))) (co_q (wo_op (nth 3 wire_ops (mk_wcop (mk_cop (mk_query (mk_ipb 0 0) None false 0) (mk_uresp 0 0 None) false (mk_uresp 0 0 None)) false false)))) false ]
+  = [true; false].
+Proof. vm_compute. split; reflexivity. Qed.
